@@ -12,6 +12,7 @@ RULE = ('scenario = seeded frame nest started by one user command through the re
         'errors (error(), type error, throw) at seeded leaves. A fault-free run counts the N instructions of the command; then one run per '
         'fault point: a catchable error injected at instruction k for every k < N (N <= 400, else 400 sampled), plus eval-cost exhaustion at '
         'a sample of k. non-trivial = the fault fired; distinct = distinct (scenario, program, frame depth class, caught-or-not).')
+RULE += (' Later additions: loads of an unloaded file from every call depth up to and beyond the limit (op dload), the fixed probe also before the scenario, a verb function that declines (returns 0) after removing its own action or destructing its living around a failing inner command().')
 COMPONENTS = {'real': ['src/error_context.c', 'src/frame.c', 'src/apply.c', 'src/interpret.c', 'src/simulate.c', 'src/backend.c', 'src/comm.c', 'lib/lpc/functional.c', 'lib/efuns'],
               'stub': ['kernel sockets/clock/timer (simulated)'], 'hook': ['per-instruction callback in eval_instruction (NEOLITH_VERIF) raises error() / presets eval_cost']}
 ASSUMPTIONS = ['side effects performed before the error are allowed; the probe evaluation only uses objects it creates itself',
